@@ -127,6 +127,11 @@ def cases_for_type(cls_name, row, rnd, all_enums, n_extra=6):
     vals += boundary_values(row)
     vals += list(row.get('permitted') or [])[:40]
     vals += list(row.get('eff_forced') or [])
+    # literals of the types this one derives from (a wider enumeration must not leak into a narrower one)
+    for base in (row.get('mro') or [])[1:]:
+        b = IMPL['simple_types'].get(base)
+        if b and b.get('permitted'):
+            vals += list(b['permitted'])[:60]
     pat = row.get('eff_pattern') or row.get('class_pattern')
     if pat:
         for _ in range(6):
@@ -215,6 +220,10 @@ def run(seed, thorough=False, drv=None):
             if st is not None and st.__name__ in IMPL['simple_types']:
                 r0 = IMPL['simple_types'][st.__name__]
                 vals += list(r0.get('permitted') or [])[:3] + boundary_values(r0)[:6]
+                for base in (r0.get('mro') or [])[1:]:
+                    b = IMPL['simple_types'].get(base)
+                    if b and b.get('permitted'):
+                        vals += list(b['permitted'])[:30]
             lines = ['elemval %d %s' % (ix('C:' + c.__name__), enc(v)) for v in vals]
             ml = drv.ask_many(lines)
             for v, m in zip(vals, ml):
